@@ -143,7 +143,8 @@ def main(tier, replay=None):
         return 0
     work = common.tmpdir("c09-")
     try:
-        os.symlink(os.path.join(tlc.SPEC_DIR, "Moves.tla"), os.path.join(work, "Moves.tla"))
+        for mod in ("Moves.tla", "LatticeOps.tla"):
+            os.symlink(os.path.join(tlc.SPEC_DIR, mod), os.path.join(work, mod))
         for (L, M, R, maxold, nsteps, mls) in ([(0, 2, 3, 5, 3, "{5, 7}")] if q else [(0, 2, 3, 5, 4, "{5, 7}"), (0, 1, 3, 5, 4, "{6}"), (0, 3, 4, 7, 4, "{8, 9}")]):
             _CONST = {"L": L, "M": M, "R": R}
             name = f"L{L}M{M}R{R}"
